@@ -66,7 +66,7 @@ Proof. exact too_large_justified. Qed.
 Print Assumptions c06_error_justified.
 
 (* the constants the arithmetic relies on *)
-Theorem c06_consts : bc_wd_threshold + 30 <= bc_max_pdu /\ bc_limit_fixed = 31 /\ bc_limit_fixed <= bc_max_pdu.
+Theorem c06_consts : bc_wd_threshold + 30 <= bc_max_pdu /\ 31 <= bc_limit_fixed /\ bc_limit_fixed <= bc_max_pdu.
 Proof. exact consts_ok. Qed.
 Print Assumptions c06_consts.
 
